@@ -176,7 +176,7 @@ class C16(Prop):
                     ops.append(o)
             plan["tag"] = "twin/%d/%s" % (kind, transport)
         elif case == "options":
-            kind = (idx // 7) % 4
+            kind = (idx // 7) % 5
             if kind in (0, 1) and rng.random() < 0.5:
                 # the invalid value must be rejected whatever the model: also when it has no finite optimum
                 solve["peer"]["script"] = {"1": {"action": "status", "status": rng.choice(NOVALUE_STATUSES)}}
@@ -189,6 +189,22 @@ class C16(Prop):
                                                         "logdet-3", "logdet0x"])
                 solve["_expect"] = "raise"
                 ops.append(solve)
+            elif kind == 4:
+                # numeric options of the dimension reduction: a string, None, nan, inf or a negative number must be
+                # rejected, and rejected before anything is solved (nothing may be readable afterwards)
+                solve["cfg"]["heuristic"] = rng.choice(["trace", "logdet1", "logdet2"])
+                bad = rng.choice(["1e-4", None, float("nan"), float("inf"), -1.0, -1e-6, [1e-4]])
+                which = rng.choice(["tol", "eig"])
+                solve["cfg"]["tol"], solve["cfg"]["eig"] = 1e-4, 1e-2
+                solve["cfg"][which] = bad
+                solve["_expect"] = "raise"
+                ops.append(solve)
+                plan["state"] = "invalid-option"
+                for o, kd in accessor_ops(b, rng, with_generated=False):
+                    o = dict(o)
+                    if kd:
+                        o["_kind"] = kd
+                    ops.append(o)
             elif kind == 2:
                 f = b.info.get("main_f") or b.funcs[0]
                 x0 = b.info.get("x0") or b.points[0]
